@@ -442,7 +442,7 @@ func bindOrderFamily(idp string, seed int64, k int) []*Program {
 		for _, src := range []string{"func0", "func1", "struct1", "func1err"} {
 			for _, place := range []string{"direct", "set", "bind-outer"} {
 				n++
-				if k > 1 && int64(n%k) != seed%int64(k) {
+				if !sampleCell(seed, n, k) {
 					continue
 				}
 				b := NewPB(fmt.Sprintf("%s%04d", idp, n), "app")
@@ -687,4 +687,198 @@ func cleanupSignatureProduct(e *Env) []*Program {
 	flush()
 	_ = count
 	return progs
+}
+
+// sharedBaseFamily (C10): one base set (providers of two concrete types) re-used by several
+// wrapper sets, each adding a DIFFERENT source for the same interface type (binding to the one
+// or the other concrete type, a function returning the interface, an interface value), each
+// wrapper used by its own injector. Whatever the analysis of one wrapper records must not leak
+// into the base set or into the next wrapper: every injector must be accepted and wired from
+// its own wrapper's source. Wrapper shapes: NewSet(Base, X); NewSet(Base, X, extra provider);
+// the base's members listed inline; NewSet(Mid, X) with Mid = NewSet(Base).
+func sharedBaseFamily() []*Program {
+	var out []*Program
+	srcKinds := []string{"bindA", "bindB", "func", "ifacevalue"}
+	n := 0
+	build := func(kinds []string, shapes []int, injOrderRev bool) {
+		n++
+		b := NewPB(fmt.Sprintf("sb%03d", n), "app")
+		a := b.Carrier(0, "FileStore")
+		bb := b.Carrier(0, "MemStore")
+		store := b.Iface(0, "Store", PtrTo(a), true)
+		m := store.Decl.Under.Meths[0]
+		bb.Decl.Methods = append(bb.Decl.Methods, Method{Name: m, PtrRecv: true})
+		newA := b.Func(0, "NewFileStore", PtrTo(a), false, false)
+		newB := b.Func(0, "NewMemStore", PtrTo(bb), false, false)
+		base := b.Set(0, "Base", ItemRef(newA.ID), ItemRef(newB.ID))
+		app := b.Carrier(0, "App")
+		newApp := b.Func(0, "NewApp", app, false, false, store)
+		type inj struct {
+			name string
+			refs []Ref
+		}
+		var injs []inj
+		for j, k := range kinds {
+			var x *Item
+			switch k {
+			case "bindA":
+				x = b.Bind(store, PtrTo(a))
+			case "bindB":
+				x = b.Bind(store, PtrTo(bb))
+			case "func":
+				x = b.Func(0, fmt.Sprintf("NewStore%d", j), store, false, false, PtrTo(a))
+			case "ifacevalue":
+				x = b.IfaceValue(store, PtrTo(a))
+			}
+			var w *Set
+			name := fmt.Sprintf("Wrap%d", j)
+			switch shapes[j] % 4 {
+			case 0:
+				w = b.Set(0, name, SetRef(base.ID), ItemRef(x.ID))
+			case 1:
+				extra := b.Carrier(0, fmt.Sprintf("Extra%d", j))
+				w = b.Set(0, name, ItemRef(x.ID), SetRef(base.ID), ItemRef(b.Func(0, fmt.Sprintf("NewExtra%d", j), extra, false, false).ID))
+			case 2:
+				w = b.Set(0, name, ItemRef(newA.ID), ItemRef(x.ID), ItemRef(newB.ID))
+			case 3:
+				mid := b.Set(0, fmt.Sprintf("Mid%d", j), SetRef(base.ID))
+				w = b.Set(0, name, SetRef(mid.ID), ItemRef(x.ID))
+			}
+			injs = append(injs, inj{fmt.Sprintf("Init%d", j), []Ref{SetRef(w.ID), ItemRef(newApp.ID)}})
+		}
+		if injOrderRev {
+			for i, j := 0, len(injs)-1; i < j; i, j = i+1, j-1 {
+				injs[i], injs[j] = injs[j], injs[i]
+			}
+		}
+		for _, in := range injs {
+			b.Inj(in.name, app, false, false, nil, in.refs...)
+		}
+		cell := fmt.Sprintf("shared-base/kinds=%v/shapes=%v/rev=%v", kinds, shapes, injOrderRev)
+		b.P.Note = cell
+		b.P.Feat = map[string]string{"cell": cell}
+		out = append(out, b.P)
+	}
+	for rot := 0; rot < 4; rot++ {
+		for sp := 0; sp < 4; sp++ {
+			var kinds []string
+			var shapes []int
+			for j := 0; j < 4; j++ {
+				kinds = append(kinds, srcKinds[(rot+j)%4])
+				shapes = append(shapes, sp+j)
+			}
+			build(kinds, shapes, (rot+sp)%2 == 1)
+		}
+	}
+	// every wrapper of the same shape
+	for sh := 0; sh < 4; sh++ {
+		build([]string{"bindA", "bindB", "bindA"}, []int{sh, sh, sh}, false)
+		build([]string{"func", "bindB", "ifacevalue", "bindA"}, []int{sh, sh, sh, sh}, sh%2 == 0)
+	}
+	return out
+}
+
+// counterpartFamily (C02): a struct type P and its pointer type *P provided by two DIFFERENT
+// sources (function / value / injector argument, in several combinations), a field provider
+// over the one or the other form, and one consumer whose parameters are an ordered selection
+// of {P, *P, F} (plus *F for the pointer form). The field must always be read from the form the
+// field provider names, whichever form happens to have been built already, and each form's
+// consumers must receive that form's own source.
+func counterpartFamily(idp string, seed int64, k int) []*Program {
+	var out []*Program
+	srcPairs := [][2]string{{"func", "func"}, {"value", "func"}, {"func", "arg"}, {"arg", "value"}}
+	n := 0
+	for _, sel := range orderedSubsets([]int{0, 1, 2}) { // 0 P, 1 *P, 2 F
+		hasF := false
+		for _, x := range sel {
+			if x == 2 {
+				hasF = true
+			}
+		}
+		if !hasF {
+			continue
+		}
+		for _, form := range []string{"value", "pointer"} {
+			for _, sp := range srcPairs {
+				for _, place := range []string{"direct", "one-set"} {
+					n++
+					if !sampleCell(seed, n, k) {
+						continue
+					}
+					b := NewPB(fmt.Sprintf("%s%04d", idp, n), "app")
+					fld := b.Carrier(0, "Fld")
+					par := b.P.NewDecl(0, "Parent", StructOf(idField, FieldT{Name: "Fld", Ty: fld}), "parent")
+					pv, pp := Named(par), PtrTo(Named(par))
+					needV, needP := form == "value", form == "pointer"
+					for _, x := range sel {
+						if x == 0 {
+							needV = true
+						}
+						if x == 1 {
+							needP = true
+						}
+					}
+					var members []Ref
+					var params []Param
+					addSrc := func(kind string, t *Ty, name string) {
+						switch kind {
+						case "func":
+							members = append(members, ItemRef(b.Func(0, name, t, false, false).ID))
+						case "value":
+							members = append(members, ItemRef(b.Value(t).ID))
+						case "arg":
+							params = append(params, Param{Name: "arg" + name, Ty: t})
+						}
+					}
+					if needV {
+						addSrc(sp[0], pv, "NewParentValue")
+					}
+					if needP {
+						addSrc(sp[1], pp, "NewParentPointer")
+					}
+					if form == "value" {
+						members = append(members, ItemRef(b.Fields(pv, "Fld").ID))
+					} else {
+						members = append(members, ItemRef(b.Fields(pp, "Fld").ID))
+					}
+					tys := []*Ty{pv, pp, fld}
+					var ps []*Ty
+					for _, x := range sel {
+						ps = append(ps, tys[x])
+					}
+					if form == "pointer" && n%2 == 0 {
+						ps = append(ps, PtrTo(fld))
+					}
+					top := b.Carrier(0, "Top")
+					newTop := b.Func(0, "NewTop", top, false, false, ps...)
+					var build []Ref
+					if place == "one-set" && len(members) > 0 {
+						s := b.Set(0, "ParentSet", members...)
+						build = []Ref{SetRef(s.ID), ItemRef(newTop.ID)}
+					} else {
+						build = append(append([]Ref{}, members...), ItemRef(newTop.ID))
+					}
+					b.Inj("Init", top, false, false, params, build...)
+					cell := fmt.Sprintf("counterparts/params=%v/fields-of=%s/src=%v/place=%s", sel, form, sp, place)
+					b.P.Note = cell
+					b.P.Feat = map[string]string{"cell": cell}
+					out = append(out, b.P)
+				}
+			}
+		}
+	}
+	return out
+}
+
+// sampleCell selects about 1/k of the cells of a family, decorrelated from the nesting of
+// the loops that enumerate them (a plain n%k would always pick the same inner-loop values).
+func sampleCell(seed int64, n, k int) bool {
+	if k <= 1 {
+		return true
+	}
+	h := uint32(n)*2654435761 + uint32(seed)*40503
+	h ^= h >> 15
+	h *= 2246822519
+	h ^= h >> 13
+	return int(h%uint32(k)) == 0
 }
